@@ -24,7 +24,11 @@ RULE = (
     "graph) is read by capture and written by restore, or is in the exemption table. R5 session brackets: begin_encode / end_encode "
     "(begin_decode / end_decode) of both codecs enclose the postcard call, parser session outermost, and every path from a begin reaches "
     "the matching end before the function returns. R6 refusal: IdWindow::encode returns Err for an id outside its window, the "
-    "serialisation error of capture becomes FragmentError::NonCacheable and no Fragment is built on that path."
+    "serialisation error of capture becomes FragmentError::NonCacheable and no Fragment is built on that path. R7 a #[serde(skip)] field of a type "
+    "that reaches a fragment is assigned only inside the type's own module (or by restore_fragment, which re-derives it). R8 a push onto a "
+    "watermarked pass-1 list (sv_shadows, import / bind / msb / connect lists, reference and type-DAG candidates) is not control dependent on "
+    "the list's own contents. R9 every hash-table iteration on the capture path ends in an order-insensitive consumer or in a Vec that is "
+    "sorted by a non-lossy key on every path before it is returned."
 )
 
 CRATES = ["veryl_parser", "veryl_analyzer"]
@@ -62,6 +66,28 @@ def _serialized_fields(w, p):
                         out.add(tuple(names[:2]) if names else (str(pth[0]),))
             except Exception:
                 pass
+    return out
+
+
+def _collects_of(g, bi, t, c24):
+    """the collect call(s) that consume the iterator produced by call t, through adapter chains"""
+    out = []
+    work = [(bi, t)]
+    seen = set()
+    while work:
+        b, tt = work.pop()
+        if b in seen or tt["dst"][1]:
+            continue
+        seen.add(b)
+        uses, _ = c24.uses_of(g, tt["dst"][0])
+        for ub, u, ai in uses:
+            if ub == b:
+                continue
+            c = u.get("callee") or ""
+            if c24.COLLECT.search(c):
+                out.append((ub, u))
+            elif c24.ADAPTER.search(c) and ai == 0:
+                work.append((ub, u))
     return out
 
 
@@ -314,6 +340,99 @@ def run(world, tier, info, only=None):
              for q in [CAP] + [x for x in w.fns if x.startswith(CAP + "::{closure")] for b in Fn(w.mir(q)).blocks for st in b["s"])
     ck.ob("R6", "capture/serialisation-error-refuses", okr and nc, site(s),
           "a serialisation error becomes FragmentError::NonCacheable and no Fragment is built on that path")
+    # ---------------- R7 serde-skipped fields are runtime-only: nobody outside the type's module puts information there ----------
+    skip_fields = set()
+    for item in set(skipped):
+        tname, fld = item.rsplit(".", 1)
+        for ty in seen:
+            if ty.split("::")[-1] == tname:
+                skip_fields.add((ty, fld))
+    ALLOW_SKIP_WRITERS = {
+        "veryl_analyzer::symbol_table::SymbolTable::restore_fragment": "re-derives Symbol.scope from the restored namespace (the reason the field can be skipped)",
+    }
+    n7 = 0
+    for p, sm in sorted(w.fns.items()):
+        if sm.get("alias_of") or "::tests::" in p:
+            continue
+        for adt, fld in [tuple(x) for x in (sm.get("fw") or [])]:
+            if (adt, fld) not in skip_fields:
+                continue
+            n7 += 1
+            mod = "::".join(adt.split("::")[:-1])
+            own = p.startswith(mod + "::") or p.startswith("<" + mod + "::")
+            ok = own or p in ALLOW_SKIP_WRITERS
+            ck.ob("R7", "skipped-field-writer:%s.%s<-%s" % (adt.split("::")[-1], fld, "::".join(p.split("::")[-2:])), ok, site(sm),
+                  "%s.%s is not serialised; it is written here %s" % (adt.split("::")[-1], fld, "inside the type's own module" if own else "(" + ALLOW_SKIP_WRITERS.get(p, "") + ")") if ok else
+                  "%s.%s is #[serde(skip)] - a fragment does not carry it - but %s stores information in it: whatever later reads it from a record "
+                  "that went through capture / restore finds the default instead" % (adt.split("::")[-1], fld, p.split("::")[-1]))
+    ck.floor("R7", "serde-skipped fields of types that reach a fragment", len(skip_fields), 2)
+    # ---------------- R8 a watermarked list records every addition of the file ------------------------------------------------------
+    import taint
+    LISTS = {("veryl_analyzer::symbol_table::SymbolTable", f) for f in ("sv_shadows", "import_list", "bind_list", "msb_list", "connect_list")} | \
+            {("veryl_analyzer::reference_table::ReferenceTable", "candidates"), ("veryl_analyzer::type_dag::TypeDag", "candidates")}
+    n8 = 0
+    for p, sm in sorted(w.fns.items()):
+        if sm.get("alias_of") or "::tests::" in p or not (p.startswith("veryl_analyzer::") or p.startswith("<veryl_analyzer::")):
+            continue
+        if not any((c["c"] or "").endswith("Vec::<T, A>::push") for c in sm["calls"]):
+            continue
+        if not any(tuple(x) in LISTS for x in (sm.get("fr") or []) + (sm.get("fm") or []) + (sm.get("fw") or [])):
+            continue
+        g = Fn(w.mir(p))
+        for bi, t in g.calls(r"^alloc::vec::Vec::<T, A>::push$"):
+            r, pth = flow.access_path(g, t["args"][0])
+            if not (r[0] == "arg" and r[1] == 1 and len(pth) == 1 and any(f == pth[0] for a, f in LISTS)):
+                continue
+            fld = pth[0]
+            n8 += 1
+            tn = taint.Taint(g, seed_place=lambda pl, fld=fld: pl[0] == 1 and any(isinstance(q, list) and q[0] == "f" and q[2] == fld for q in pl[1]),
+                             pure=re.compile(r"Deref>::deref$|::iter$|IntoIterator>::into_iter$|Iterator>?::(any|all|find|position|next|map|filter|count)$|::contains$|::len$|::is_empty$|::last$|::get$"))
+            pdom = taint.postdominators(g)
+            dep = False
+            for snk in tn.sinks():
+                if snk[0] != "switch":
+                    continue
+                cd = taint.control_dependents(g, snk[1], pdom)
+                if any(bi in blocks for blocks in cd.values()) and not all(bi in blocks for blocks in cd.values()):
+                    dep = True
+            ck.ob("R8", "list-records-every-addition:%s/%s" % (p.split("::")[-1], fld), not dep, site(sm, t["l"]),
+                  "the push onto %s does not depend on what the list already holds" % fld if not dep else
+                  "whether an entry is pushed onto %s depends on the list's own run-wide contents: an entry first recorded for another file is not "
+                  "recorded again inside this file's window, so this file's fragment lacks it" % fld)
+    ck.floor("R8", "pushes onto watermarked pass-1 lists", n8, 5)
+    # ---------------- R9 what is exported from a hash table is put in a definite order ---------------------------------------------
+    import c24
+    import c16
+    c24.WORLD[0] = w
+    IT = re.compile(r"(hash::(map::HashMap|set::HashSet)|hashbrown::\w+::Hash(Map|Set)).*::(iter|iter_mut|values|values_mut|keys|into_values|into_keys|drain)$|"
+                    r"Hash(Map|Set)<.*> as core::iter::traits::collect::IntoIterator>::into_iter$")
+    n9 = 0
+    for p in sorted(rc):
+        sm = w.fns.get(p)
+        if not sm or sm.get("alias_of") or not p.startswith(("veryl_analyzer", "veryl_parser", "<veryl_")):
+            continue
+        if not any(IT.search(c["c"] or "") for c in sm["calls"]):
+            continue
+        g = Fn(w.mir(p))
+        k = 0
+        for bi, t in g.calls(IT.pattern):
+            n9 += 1
+            k += 1
+            verdict, why = c24.classify(g, bi, t)
+            if verdict == "sensitive":
+                # a Vec that is extended after the collect and then sorted: accept if a sort of the same Vec lies on every path to the return
+                for cb, ct in _collects_of(g, bi, t, c24):
+                    if not ct["dst"][1] and g.ty(ct["dst"][0]).startswith("alloc::vec::Vec<"):
+                        V = ct["dst"][0]
+                        sorts = [sb for sb, stt in g.calls(c24.SORT.pattern) if c16._root_named(g, stt["args"][0]) == V or
+                                 any(x[0] == "call" and x[2] == cb for x in g.prov(stt["args"][0], depth=10))]
+                        if sorts and not flow.escapes(g, ct["to"], sorts) and not any(c24._lossy_comparator(g.blocks[sb]["t"]) for sb in sorts):
+                            verdict, why = "sorted", "collected, extended, then sorted on every path to the return"
+            ck.ob("R9", "export-order:%s@%d" % ("::".join(p.split("::")[-2:]), k), verdict in ("sorted", "insensitive"), site(sm, t["l"]),
+                  "the exported entries are %s (%s)" % (verdict, why) if verdict != "sensitive" else
+                  "entries taken from a hash table are exported in its iteration order (%s): that order depends on the ids of the capturing session, "
+                  "and restore replays it (later insertions win ties)" % why)
+    ck.floor("R9", "hash-table iterations on the capture path", n9, 6)
     ck.analysed = {"reachable_types": len(seen), "id_types": sorted(x.split("::")[-1] for x in id_types), "not_serialised_fields": sorted(set(skipped))[:40],
                    "pass1_thread_locals": W}
     return ck.finish(info)
